@@ -56,7 +56,7 @@ func refHandler(backend string, g int, noKey bool) *dnsserver.FBDNSDB {
 func refResponse(backend string, g int, noKey bool, q *QRec) *dns.Msg {
 	refMu.Lock()
 	defer refMu.Unlock()
-	key := fmt.Sprintf("%s-%d-%v-%d-%d-%v-%d-%v-%d", backend, g, noKey, q.Q.Q, q.Q.Client, q.Q.EDNS, q.Q.ECS, q.Q.BadVers, q.Q.Hdr)
+	key := fmt.Sprintf("%s-%d-%v-%d-%d-%v-%d-%v-%d-%d", backend, g, noKey, q.Q.Q, q.Q.Client, q.Q.EDNS, q.Q.ECS, q.Q.BadVers, q.Q.Hdr, q.Q.Opt)
 	if m, ok := refAnswers[key]; ok {
 		return m
 	}
